@@ -118,6 +118,24 @@ CHECKS['C14'] = dict(
          'from a finite adversarial set because the unicode_escape codec is C code.',
     design='DESIGN.md section 2 C14')
 
+CHECKS['C16'] = dict(
+    engine='symx+crosshair',
+    technique='bounded symbolic execution (z3, own executor) over which single aspect differs between two real workflows + CrossHair on the hash canonicalisation',
+    text='Kernel only. E1: for every backend and every one of 11 aspects (5 hash-relevant, 6 irrelevant) two in-memory workflows differing in '
+         'exactly that aspect are loaded and the real memoization_hash / memoization_hash_fuzzy compared (differ iff relevant, producer chain '
+         'included). E2: CrossHair searches _memoization_info_to_hash (md5 replaced by a recorder) for collisions/instabilities with symbolic strings.',
+    note='file content hashing, missing inputs, JavaScript embedding and CDB lookups are outside; md5 assumed injective; aspects and values are a finite family.',
+    design='DESIGN.md section 2 C16')
+CHECKS['C18'] = dict(
+    technique='bounded symbolic execution (z3, own executor) over the segment structure of archive member names, link targets and manifest keys; file-system writes recorded by a model',
+    text='Every archive of 1 (thorough 2) members with names of <=3 segments from {.., ., a, b}, optional leading/trailing slash, all four member '
+         'types and link targets, every manifest key of <=3 (4) segments and every copy/link file path is pushed through the real StageReference / '
+         'Manifest.validate / expandPackageToDirectory; every write recorded by the file-system model must lie under the target directory. '
+         'Exhaustive within the bound.',
+    note='tarfile/shutil/os are models (fully-trusted extraction resolving through earlier symlinks; copytree/symlink fail on existing '
+         'ancestors): the claim is relative to them; segments are tokens, not symbolic characters.',
+    design='DESIGN.md section 2 C18')
+
 NOT_APPLICABLE = {
     'C07': 'round trip through the real file system, PyYAML (C) and Experiment construction: nothing on the path can be made symbolic; the technique would degenerate to example testing',
     'C15': 'quantifies over processes with different hash seeds / directory listing orders, which are not values inside one symbolic execution',
